@@ -8,6 +8,7 @@
    Quantifier: every history, of any length and shape, for Lut and LutN; every intermediate and final value.
    Statements only; proofs are in Proofs/Invariant.v. *)
 From Coq Require Import List NArith Arith Bool Lia.
+From V Require Proofs.ExprsTie3.  (* whole-word regimes, fill_symmetric, text widths: regenerated from the Rust source, equal the model's *)
 From V Require Proofs.ExprsTie.   (* the kernels' word-level expressions, regenerated from the Rust source, equal the model's *)
 From V Require Import Base.Res Model.Kernels Model.Canon Model.TwoLevel Model.Api Spec.Bfun Spec.Calls
   Proofs.Order Proofs.Invariant.
